@@ -111,9 +111,11 @@ def judge(ctx: core.Ctx, case: dict[str, Any]) -> None:
             ctx.violation(f"strict-does-not-raise:{case['probe']}", f"StrictUndefined: {case['source']!r} gave {o.brief()} instead of UndefinedError")
             return
         d, _ = run(case, "default", data)
-        if not d.ok and d.err_class == "UndefinedError":
+        if not d.ok and (d.err_class == "UndefinedError" or not d.is_liquid_error):
+            # "the default undefined type never raises for a missing variable or path": not UndefinedError, and no foreign exception from
+            # the machinery that reports the missing path either (other Liquid errors, e.g. a filter rejecting its argument, are not judged)
             ctx.evaluations += 1
-            ctx.violation(f"default-raises:{case['probe']}", f"default Undefined raised UndefinedError for {case['source']!r}")
+            ctx.violation(f"default-raises:{case['probe']}" + ("" if d.err_class == "UndefinedError" else f":{d.err_class}"), f"default Undefined: {case['source']!r} raised {d.err_class}: {drv.safe_str(d.exc)[:100]}")
             return
         ctx.ok((case["source"],), nontrivial=True)
         return
@@ -201,6 +203,10 @@ USES = [
     ("filter-upcase", "{{ @ | upcase }}"), ("filter-size", "{{ @ | size }}"), ("filter-join", "{{ @ | join: ',' }}"), ("filter-plus", "{{ @ | plus: 1 }}"),
     ("filter-arg", "{{ 'a' | append: @ }}"), ("filter-first", "{{ @ | first }}"), ("assign-output", "{% assign v = @ %}{{ v }}"), ("capture", "{% capture v %}{{ @ }}{% endcapture %}"),
     ("liquid-echo", "{% liquid\n echo @\n%}"), ("range", "{% for i in (1..@) %}x{% endfor %}"),
+    # iterating with loop arguments: the iterable is touched whatever the arguments say
+    ("iterate-limit-0", "{% for i in @ limit: 0 %}x{% else %}e{% endfor %}"), ("iterate-limit-var", "{% for i in @ limit: zero %}x{% else %}e{% endfor %}"), ("iterate-offset", "{% for i in @ offset: 5 %}x{% endfor %}"),
+    ("iterate-reversed", "{% for i in @ reversed %}x{% endfor %}"), ("iterate-tablerow-limit-0", "{% tablerow i in @ limit: 0 %}x{% endtablerow %}"), ("iterate-negative-limit", "{% for i in @ limit: -1 %}x{% endfor %}"),
+    ("iterate-offset-continue", "{% for i in @ limit: 0 offset: continue %}x{% endfor %}"), ("index-by-missing", "{{ xs[@] }}"), ("key-by-missing", "{{ h[@] }}{{ d.a[@] }}"),
 ]
 # uses of a missing value that some strict type tolerates (default filter, truthiness, equality with nil / false, a filter argument that
 # is only compared): whenever a strict type completes the render, its output must be the default type's output
@@ -214,7 +220,7 @@ TOLERANT_USES = [
     "{{ xs | concat: e | first | default: @ | default: 'z' }}", "{% if xs contains @ %}y{% else %}n{% endif %}", "{{ 'a' | default: @ }}", "{{ false | default: @, allow_false: true }}|",
     "{{ nil | default: @ | default: 'q' }}", "{% assign w = @ %}{% if w %}y{% else %}n{% endif %}", "{% capture w %}{% if @ %}y{% endif %}{% endcapture %}[{{ w }}]",
 ]
-PROBE_DATA = {"os": [{"k": 1}, {"j": 2}, {"k": None}, {"k": False}], "h": {"a": 1, "e2": []}, "xs": [1], "e": [], "eh": {}, "s": "str", "n": 5, "d": {"a": {"b": 1}, "list": ["p"]}}
+PROBE_DATA = {"zero": 0, "os": [{"k": 1}, {"j": 2}, {"k": None}, {"k": False}], "h": {"a": 1, "e2": []}, "xs": [1], "e": [], "eh": {}, "s": "str", "n": 5, "d": {"a": {"b": 1}, "list": ["p"]}}
 
 
 def cases(ctx: core.Ctx):
